@@ -340,6 +340,10 @@ class StorageServer(service.MultiService):
                 # occurs while the first is still in progress, the second
                 # uploader will use different storage servers.
                 pass
+            elif self.readonly_storage:
+                # A read-only server accepts no new shares at all, not even
+                # an empty one (for which the space test below would pass).
+                pass
             elif (not limited) or (remaining_space >= max_space_per_bucket):
                 # ok! we need to create the new share file.
                 bw = BucketWriter(self, incominghome, finalhome,
